@@ -335,6 +335,18 @@ def _strategy():
                                        st.integers(0, 2)).map(list),
                              min_size=2, max_size=4))})
                 continue
+            if draw(st.integers(0, 4)) == 0:
+                # some watchers stopped, another one active but short of a
+                # worker (a death nothing has made up for), then a start of
+                # all of them
+                seqs.append({"kind": "start", "stop_first": False,
+                             "faults": [],
+                             "stop_some": draw(st.lists(
+                                 st.integers(0, 4), min_size=1, max_size=2)),
+                             "pre_deaths": draw(st.lists(
+                                 st.integers(0, 7), min_size=1, max_size=3)),
+                             "check_after_deaths": draw(st.booleans())})
+                continue
             sq = {"kind": draw(st.sampled_from(['start', 'restart',
                                                 'restart',
                                                 'reload-terminate',
